@@ -44,6 +44,8 @@ func runC14(c *Ctx, pr *PropertyRun) {
 	c14ParseChecked(c, pr, entries)
 	c14Tables(c, pr)
 	decodePropTable(c, pr, "C14")
+	// "returns without hanging": the streamed upload (shared with C18.upload)
+	c18Upload(c, pr, "C14")
 }
 
 func c14Gate(c *Ctx, pr *PropertyRun, entries []*ssa.Function) {
